@@ -15,7 +15,8 @@ static void reg(const Profile &p) { registry()[p.id] = p; }
 // logical comparison of the final files of two runs of (variants of) one program: dimensions, attributes, variables, record count and every
 // element the reference model knows to be determinate (independent decoder on both images).  Returns "" when equal.
 static std::string final_files_differ(const Program &q, const RunResult &ra, const RunResult &rb, bool ignore_logs = false) {
-    const Model *fm = nullptr; for (auto it = q.ops.rbegin(); it != q.ops.rend() && !fm; ++it) if (it->msnap) fm = it->msnap.get();
+    // the reference model at the END of the program (annotation is deterministic and idempotent): which files are closed, and what they must hold
+    Model endm; { Program tmp = q; annotate(endm, tmp); } const Model *fm = &endm;
     auto is_log = [](const std::string &n) { return n.size() > 5 && (n.compare(n.size() - 5, 5, ".meta") == 0 || n.compare(n.size() - 5, 5, ".data") == 0); };
     for (auto &kv : ra.final_files) {
         if (ignore_logs && is_log(kv.first)) continue;
